@@ -1,6 +1,7 @@
 CONSTANTS
   ItemFirst = TRUE
   LocAfterValue = TRUE
+  CasFailReturnsInstalled = FALSE
 SPECIFICATION Spec
-INVARIANTS CopyKeepsItem SizeIsReal NeverLost LoadsSeeWrittenBytes
+INVARIANTS CopyKeepsItem SizeIsReal NeverLost LoadsSeeWrittenBytes ValueReadGetsValue
 CHECK_DEADLOCK FALSE
